@@ -8,6 +8,7 @@ import (
 	"net/http/httptest"
 	"os"
 	"path/filepath"
+	"runtime"
 	"strings"
 	"sync/atomic"
 	"syscall"
@@ -43,6 +44,7 @@ type task struct {
 	killed  bool
 	panicked string
 	depth    int32
+	goid     int64 // the goroutine that runs the task: only its own requests are gates
 	gateAll  bool // also gate GETs to replicas (the controller-side poll loop of a clone start)
 }
 
@@ -59,7 +61,7 @@ var reqDepth int32
 
 func installHooks() {
 	inject.UpdateLUNMapHook = func() {
-		if cl := curr; cl != nil && cl.cur != nil && cl.cur.running {
+		if cl := curr; cl != nil && cl.cur != nil && cl.cur.running && cl.cur.goid == goid() {
 			cl.gate("window inside UpdateLUNMap (map preloaded, server unlocked)")
 		}
 	}
@@ -88,6 +90,15 @@ func (cl *cluster) gate(desc string) {
 }
 
 type taskKilled struct{}
+
+// goid returns the current goroutine's id (from the first line of its stack trace).
+func goid() int64 {
+	var buf [64]byte
+	n := runtime.Stack(buf[:], false)
+	var id int64
+	fmt.Sscanf(string(buf[:n]), "goroutine %d ", &id)
+	return id
+}
 
 func gated(req *http.Request) bool {
 	if req.Method != "GET" {
@@ -272,6 +283,7 @@ func (cl *cluster) startTaskOpt(kind string, node int, gateAll bool, body func()
 	t := &task{kind: kind, node: node, release: make(chan struct{}), report: make(chan string, 1), running: true, gateAll: gateAll}
 	cl.cur = t
 	go func() {
+		t.goid = goid()
 		defer func() {
 			if r := recover(); r != nil {
 				if _, ok := r.(taskKilled); ok {
